@@ -22,6 +22,20 @@ Theorem C09_interleaving_equals_solo_run : forall dbapi closed conn_of,
   view (grun dbapi closed g sched) s = view (grun dbapi closed g (filter (mine s) sched)) s.
 Proof. exact interleaving_equals_solo_run. Qed.
 
+(* ... also when the schedule contains steps that set execution options on a session's connection
+   (set_connection_execution_options -> track_cloned_connections): an independent session never
+   adopts another session's unit of work *)
+Theorem C09_interleaving_with_execution_options : forall dbapi closed conn_of,
+  (forall a b, conn_of a = conn_of b -> a = b) ->
+  forall g s sched,
+  owns conn_of s -> sched_ok2 dbapi closed conn_of s sched ->
+  view (grun2 dbapi closed g sched) s = view (grun2 dbapi closed g (filter (mine2 s) sched)) s.
+Proof. exact interleaving_equals_solo_run2. Qed.
+
+Theorem C09_execution_options_adopt_nothing : forall dbapi closed s G,
+  keys_apart dbapi s G -> clone_track dbapi closed G (ss_conn s) = G.
+Proof. exact clone_track_own_noop. Qed.
+
 (* quiescence: after its rollback a session has neither a unit of work nor a map entry; after its
    commit likewise (it was registered by its first flush) *)
 Theorem C09_quiescent_after_rollback : forall dbapi closed conn_of,
@@ -53,3 +67,5 @@ Print Assumptions C09_interleaving_equals_solo_run.
 Print Assumptions C09_quiescent_after_rollback.
 Print Assumptions C09_quiescent_after_commit.
 Print Assumptions C09_example.
+Print Assumptions C09_interleaving_with_execution_options.
+Print Assumptions C09_execution_options_adopt_nothing.
